@@ -834,7 +834,11 @@ pub fn record_cross(out: &mut Out, tier: &str, seed: u64) {
             let mut b5 = body.clone();
             b5.push(0);
             b5.extend(crate::topic::field(b"c"));
-            for (fam, fr) in [("v3", crate::topic::frame(0x10, &b3)), ("v5", crate::topic::frame(0x10, &b5))] {
+            // "bare": the frame ends right after the level (a reader that fetches name and level in one fixed-size
+            // block runs out of input there)
+            let mut bare = crate::topic::field(nm);
+            bare.push(level);
+            for (fam, fr) in [("v3", crate::topic::frame(0x10, &b3)), ("v5", crate::topic::frame(0x10, &b5)), ("bare", crate::topic::frame(0x10, &bare))] {
                 // presented to BOTH decoder families
                 let r3: Vec<J> = ["block", "async", "poll"].iter().map(|f| cross_front::<V3>(&fr, f).0).collect();
                 let r5: Vec<J> = ["block", "async", "poll"].iter().map(|f| cross_front::<V5>(&fr, f).0).collect();
